@@ -5,6 +5,7 @@ whose constants/tables satisfy the decidable well-formedness predicates `wfDim2`
 Core-only (no Mathlib needed).
 -/
 import SqiModel.VerifyAccess
+import SqiProofs.C17.Conv
 
 set_option autoImplicit false
 
@@ -44,11 +45,31 @@ theorem inU_iff (z : Int) (k : Nat) (hk : 1 ≤ k) : inU z k = true ↔ 0 ≤ z 
 theorem bitsize_pos (z : Int) : 1 ≤ bitsize z := by
   unfold bitsize; split <;> omega
 
+/-- `ibz_to_digit_array` into `w` words does not overflow when the value has at most 64·w bits
+    (limb count of the C17 model, `SqiProofs.C17.limbsAux_length_le`) -/
 theorem wordsWritten_le (z : Int) (w : Nat) (hw : 1 ≤ w) (hb : bitsize z ≤ 64 * w) : wordsWritten z ≤ w := by
   unfold wordsWritten
   split
-  · exact hw
-  · omega
+  · simpa using hw
+  · rename_i h0
+    unfold SqiModel.Intbig.limbs
+    apply SqiProofs.C17.limbsAux_length_le
+    have hn : z.natAbs ≠ 0 := by omega
+    unfold bitsize at hb
+    simp only [h0, if_false] at hb
+    exact (Nat.log2_lt hn).1 (by omega)
+
+/-- the `digits` access agrees with the C17 model: in bounds iff `ibzToDigitArray` is not `ub` -/
+theorem digits_ok_iff (what : String) (z : Int) (cap : Nat) :
+    (Access.digits what (wordsWritten z) cap).ok = true ↔ SqiModel.Intbig.ibzToDigitArray cap z ≠ .ub := by
+  unfold Access.ok wordsWritten SqiModel.Intbig.ibzToDigitArray
+  simp only [decide_eq_true_eq]
+  constructor
+  · intro h; simp [h]
+  · intro h
+    by_cases hh : (if z = 0 then [0] else SqiModel.Intbig.limbs z.natAbs).length ≤ cap
+    · exact hh
+    · simp [hh] at h
 
 theorem allOk_append (l1 l2 : List Access) : allOk (l1 ++ l2) = (allOk l1 && allOk l2) := by
   simp [allOk, List.all_append]
@@ -96,60 +117,121 @@ theorem matApp_ok (K : Lvl) (tag : String) (fArg : Int) (h0 : 0 ≤ fArg) (h1 : 
     Int.natCast_mul]
   refine ⟨⟨by omega, by omega⟩, ⟨h0, by omega⟩, by omega⟩
 
-/-! ## well-formedness of a level (decidable; evaluated by the kernel on the generated tables) -/
+/-! ## the two strategy-driven routines (traversals by a3's theorems, passed in as hypotheses) -/
+
+/-- facts about `ec_eval_even` a level must provide: the extracted guard sends only table lengths to the strategy routine
+    (`SqiProps.C09.guard_false_in_range`) and the routine's model is fault-free there (`SqiProps.C09.even_chain_of_rows`) -/
+structure EvenFacts (K : Lvl) : Prop where
+  gd : ∀ len, K.evenNaive len K.f K.rows4 = false → len ≤ K.f ∧ K.f - len < K.rows4
+  ev : ∀ len, len ≤ K.f → K.f - len < K.rows4 → (SqiModel.EvenChain.evalEven K.strat4 K.f len).err = none
+
+/-- facts about the (2,2)-chain: every row the callers can select drives the loop model without fault, both modes
+    (`SqiProps.C12.theta_chain_of_rows`) -/
+structure ThetaFacts (K : Lvl) : Prop where
+  th : ∀ (n idx : Nat) (ea : Bool), idx < K.rows2 → K.f - idx = n - (if ea then 0 else 2) → 2 ≤ n - (if ea then 0 else 2) →
+    (SqiModel.ThetaChain.chain { row := K.strat2.getD idx [], n := n, eightAbove := ea }).err = none
+
+theorem evalP_vla_pos (P : SqiModel.EvenChain.Params) (h : (SqiModel.EvenChain.evalP P).err = none) : 1 ≤ P.vla := by
+  unfold SqiModel.EvenChain.evalP at h
+  by_cases hv : P.vla = 0
+  · simp [hv, SqiModel.EvenChain.St.fail] at h
+  · omega
+
+theorem tri_le (x f : Nat) (h : x ≤ f) : x * (x - 1) / 2 ≤ f * f :=
+  Nat.le_trans (Nat.div_le_self _ _) (Nat.mul_le_mul h (Nat.le_trans (Nat.sub_le _ _) h))
+
+theorem lenU16_of_range (x : Int) (h0 : 0 ≤ x) (h1 : x < 65536) : (lenU16 x : Int) = x := by
+  unfold lenU16
+  omega
+
+theorem evalEven_ok (K : Lvl) (E : EvenFacts K) (tag : String) (isogLen : Int) (h0 : 0 ≤ isogLen) (h1 : isogLen ≤ K.f)
+    (hf : K.f < 65536) : allOk (evalEven K tag isogLen) = true ∧ allOk (evalEvenTrav K tag isogLen) = true := by
+  have hl := lenU16_of_range isogLen h0 (by omega)
+  have hlf : lenU16 isogLen ≤ K.f := by omega
+  by_cases hg : K.evenNaive (lenU16 isogLen) K.f K.rows4 = true
+  · simp only [evalEven, evalEvenTrav, hg, if_true, allOk_append, allOk_cons, allOk_nil, Access.ok, Bool.and_true, Bool.and_eq_true,
+      decide_eq_true_eq]
+    refine ⟨⟨by omega, ?_, ?_⟩, trivial⟩
+    · exact_mod_cast hlf
+    · exact_mod_cast tri_le _ _ hlf
+  · have hg' : K.evenNaive (lenU16 isogLen) K.f K.rows4 = false := by simpa using hg
+    obtain ⟨ha, hb⟩ := E.gd _ hg'
+    have herr := E.ev _ ha hb
+    have hv := evalP_vla_pos _ herr
+    simp only [evalEven, evalEvenTrav, hg', Bool.false_eq_true, if_false, herr, allOk_append, allOk_cons, allOk_nil, Access.ok,
+      Bool.and_true, Bool.and_eq_true, decide_eq_true_eq]
+    refine ⟨⟨by omega, ?_, ?_, ?_⟩, trivial⟩
+    · exact_mod_cast hv
+    · simp only [SqiModel.EvenChain.mkParams, Lvl.rows4]
+      unfold Lvl.rows4 at hb
+      omega
+    · simp only [SqiModel.EvenChain.Params.eHalf, SqiModel.EvenChain.mkParams]
+      have : lenU16 isogLen / 2 ≤ K.f := by omega
+      exact_mod_cast this
+
+theorem thetaChain_ok (K : Lvl) (T : ThetaFacts K) (tag : String) (n rowIdx : Int) (adj : Nat) (ha : adj = 0 ∨ adj = 2)
+    (hn4 : 4 ≤ n) (hnf : n ≤ K.f) (hr0 : 0 ≤ rowIdx) (hr1 : rowIdx < K.rows2) (hrel : (K.f : Int) - rowIdx = n - adj)
+    (hf : K.f < 2 ^ 20) :
+    allOk (thetaChain K tag n rowIdx adj) = true ∧ allOk (thetaChainTrav K tag n rowIdx adj) = true := by
+  constructor
+  · unfold thetaChain
+    rcases ha with rfl | rfl
+    · simp only [allOk_append, allOk_cons, allOk_nil, Access.ok, Bool.and_true, Bool.and_eq_true, decide_eq_true_eq,
+        show ¬ ((0 : Nat) = 2) from by decide, if_false]
+      omega
+    · simp only [allOk_append, allOk_cons, allOk_nil, Access.ok, Bool.and_true, Bool.and_eq_true, decide_eq_true_eq, if_true]
+      omega
+  · unfold thetaChainTrav
+    have hcond : 0 ≤ rowIdx ∧ rowIdx < K.rows2 ∧ 2 ≤ n := ⟨hr0, hr1, by omega⟩
+    simp only [hcond, and_self, if_true]
+    have := T.th n.toNat rowIdx.toNat (decide (adj = 0)) (by omega)
+      (by rcases ha with rfl | rfl <;> simp <;> omega) (by rcases ha with rfl | rfl <;> simp <;> omega)
+    rw [this]
+    rfl
+
+/-! ## well-formedness of a level: numeric side conditions (decidable) + the traversal facts -/
 
 def wfCommon (K : Lvl) : Bool :=
   decide (K.radix = 64) && decide (K.hintThrP ≤ K.nqr ∧ K.hintThrQ ≤ K.nqr) && decide (1 ≤ K.nwField) && decide (K.nwField ≤ K.nwOrder) &&
-  decide (K.f < 2 ^ 20) && decide (K.f ≤ 64 * K.nwField)
+  decide (K.f < 65536) && decide (K.f ≤ 64 * K.nwField) && decide (64 * K.nwField ≤ K.f + 64)
 
-/-- dim2, numeric side conditions -/
 def wfDim2Num (K : Lvl) : Bool :=
   wfCommon K && decide (K.btBound ≤ K.f) && decide (K.respLen + 2 ≤ K.f) && decide (0 ≤ maxTrlDim2 K) &&
-  decide (maxTrlDim2 K ≤ K.respLen)
-/-- dim2: every backtracking value the guard admits drives `ec_eval_even_strategy` inside its arrays -/
-def wfDim2Ev (K : Lvl) : Bool :=
-  (List.range K.btBound).all (fun b => allOk (evalEven K "challenge" ((K.f : Int) - (b : Nat))))
-/-- dim2: every admitted two_resp_length drives the (2,2)-chain inside its arrays -/
-def wfDim2Th (K : Lvl) : Bool :=
-  (List.range ((maxTrlDim2 K).toNat + 1)).all (fun t =>
-    allOk (thetaChain K "chain" ((K.respLen : Int) - (t : Nat)) ((K.f : Int) - ((K.respLen : Int) - (t : Nat))) 0))
-def wfDim2 (K : Lvl) : Bool := wfDim2Num K && wfDim2Ev K && wfDim2Th K
+  decide (maxTrlDim2 K + 4 ≤ K.respLen)
 
 def wfHeurNum (K : Lvl) : Bool :=
   wfCommon K && decide (K.heurBound ≤ K.f) && decide (K.heurChall ≤ K.f) && decide (0 ≤ maxTrlHeur K) &&
-  decide ((K.heurChall : Int) + maxTrlHeur K ≤ K.f) && decide (maxTrlHeur K ≤ K.heurBound)
-def wfHeurEv (K : Lvl) : Bool :=
-  (List.range ((maxTrlHeur K).toNat + 1)).all (fun t => allOk (evalEven K "challenge" ((K.heurChall : Int) + (t : Nat))))
-def wfHeurTh (K : Lvl) : Bool :=
-  (List.range ((maxTrlHeur K).toNat + 1)).all (fun t =>
-    allOk (thetaChain K "chain" ((K.heurBound : Int) - (t : Nat)) ((K.f : Int) - ((K.heurBound : Int) - (t : Nat)) + 2) 2))
-def wfHeur (K : Lvl) : Bool := wfHeurNum K && wfHeurEv K && wfHeurTh K
+  decide ((K.heurChall : Int) + maxTrlHeur K ≤ K.f) && decide (maxTrlHeur K + 4 ≤ K.heurBound) &&
+  decide (K.heurBound + K.heurChall = K.f)
 
-theorem range_all {p : Nat → Bool} {n : Nat} (h : (List.range n).all p = true) {i : Nat} (hi : i < n) : p i = true :=
-  (List.all_eq_true.1 h) i (List.mem_range.2 hi)
+structure WfDim2 (K : Lvl) : Prop where
+  num : wfDim2Num K = true
+  even : EvenFacts K
+  theta : ThetaFacts K
+
+structure WfHeur (K : Lvl) : Prop where
+  num : wfHeurNum K = true
+  even : EvenFacts K
+  theta : ThetaFacts K
 
 /-! ## the two bodies -/
 
-theorem bodyDim2_ok (K : Lvl) (hK : wfDim2 K = true) (pk : RawPk) (s : RawSig) (hs : sigInRangeDim2 K pk s = true) :
+theorem bodyDim2_ok (K : Lvl) (hK : WfDim2 K) (pk : RawPk) (s : RawSig) (hs : sigInRangeDim2 K pk s = true) :
     allOk (bodyDim2 K pk s) = true := by
-  simp only [wfDim2, wfDim2Num, wfDim2Ev, wfDim2Th, wfCommon, Bool.and_eq_true, decide_eq_true_eq, and_assoc] at hK
-  obtain ⟨hr, hnqP, hnqQ, hnf1, hnfo, hf20, hf64, hbtf, hrf, hmt0, hmtr, hE, hT⟩ := hK
+  obtain ⟨hnum, E, T⟩ := hK
+  simp only [wfDim2Num, wfCommon, Bool.and_eq_true, decide_eq_true_eq, and_assoc] at hnum
+  obtain ⟨hr, hnqP, hnqQ, hnf1, hnfo, hf16, hf64, hb64, hbtf, hrf, hmt0, hmtr⟩ := hnum
   have hnq := And.intro hnqP hnqQ
   simp only [sigInRangeDim2, pkInRange, inU, Bool.and_eq_true, decide_eq_true_eq, Bool.not_eq_true', and_assoc] at hs
   obtain ⟨_, _, hp0, hp1, _, _, hbt0, hbt1, ht0, ht1, ha0, ha1, hc0, hc1, _, _, hch0, hch1, _⟩ := hs
-  -- the two table-driven traversals, from the kernel-evaluated facts
-  have hbtN : s.bt = ((s.bt.toNat : Nat) : Int) := by omega
-  have hEv : allOk (evalEven K "challenge" ((K.f : Int) - s.bt)) = true := by
-    have := range_all hE (i := s.bt.toNat) (by omega)
-    rw [hbtN]; exact this
-  have htN : s.trl = ((s.trl.toNat : Nat) : Int) := by omega
-  have hTh : allOk (thetaChain K "chain" ((K.respLen : Int) - s.trl) ((K.f : Int) - ((K.respLen : Int) - s.trl)) 0) = true := by
-    have := range_all hT (i := s.trl.toNat) (by omega)
-    rw [htN]; exact this
+  unfold maxTrlDim2 at ht1 hmt0 hmtr
+  have hEv := evalEven_ok K E "challenge" ((K.f : Int) - s.bt) (by omega) (by omega) hf16
+  have hTh := thetaChain_ok K T "chain" ((K.respLen : Int) - s.trl) ((K.f : Int) - ((K.respLen : Int) - s.trl)) 0 (Or.inl rfl)
+    (by omega) (by omega) (by omega) (by omega) (by omega) (by omega)
   have hfB : (K.respLen : Int) - s.trl + 2 + s.trl = (K.respLen : Int) + 2 := by omega
-  unfold bodyDim2
+  unfold bodyDim2 travDim2 cheapDim2
   simp only [hfB, allOk_append, Bool.and_eq_true, and_assoc]
-  refine ⟨?_, ?_, ?_, hEv, ?_, ?_, ?_, ?_, ?_, ?_, hTh⟩
+  refine ⟨?_, ?_, ?_, ?_, hEv.1, ?_, ?_, ?_, ?_, ?_, ?_, ?_, hTh.1, hEv.2, hTh.2⟩
   · exact fromHint_ok K _ _ _ _ hp0 hp1 hnq (by omega)
   · simp only [allOk_cons, allOk_nil, Access.ok, Bool.and_true, Bool.and_eq_true, decide_eq_true_eq]
     refine ⟨?_, ?_, ?_⟩
@@ -160,6 +242,8 @@ theorem bodyDim2_ok (K : Lvl) (hK : wfDim2 K = true) (pk : RawPk) (s : RawSig) (
       exact_mod_cast this
     · omega
     · omega
+  · simp only [ladder3pt, allOk_cons, allOk_nil, Access.ok, Bool.and_true, decide_eq_true_eq]
+    omega
   · exact dblIter_ok K _ _ (by omega)
   · simp only [allOk_cons, allOk_nil, Access.ok, Bool.and_true, Bool.and_eq_true, decide_eq_true_eq]
     omega
@@ -167,27 +251,31 @@ theorem bodyDim2_ok (K : Lvl) (hK : wfDim2 K = true) (pk : RawPk) (s : RawSig) (
   · exact fromHint_ok K _ _ _ _ ha0 ha1 hnq (by omega)
   · exact dblIter_ok K _ _ (by omega)
   · exact matApp_ok K _ _ (by omega) (by omega) hr (by omega)
+  · simp only [dblmul3, allOk_cons, allOk_nil, Access.ok, Bool.and_true, decide_eq_true_eq]
+    omega
   · apply allOk_ite
     · intro _
       rw [allOk_append, dblIter_ok K _ _ (by omega)]
-      simp only [allOk_cons, allOk_nil, Access.ok, Bool.and_true, Bool.true_and, decide_eq_true_eq]
-      omega
+      simp only [allOk_cons, allOk_nil, Access.ok, Bool.and_true, Bool.true_and, Bool.and_eq_true, decide_eq_true_eq]
+      refine ⟨by omega, ?_⟩
+      exact_mod_cast tri_le s.trl.toNat K.f (by omega)
     · intro _; rfl
 
-theorem bodyHeur_ok (K : Lvl) (hK : wfHeur K = true) (pk : RawPk) (s : RawSigH) (hs : sigInRangeHeur K pk s = true) :
+theorem bodyHeur_ok (K : Lvl) (hK : WfHeur K) (pk : RawPk) (s : RawSigH) (hs : sigInRangeHeur K pk s = true) :
     allOk (bodyHeur K pk s) = true := by
-  simp only [wfHeur, wfHeurNum, wfHeurEv, wfHeurTh, wfCommon, Bool.and_eq_true, decide_eq_true_eq, and_assoc] at hK
-  obtain ⟨hr, hnqP, hnqQ, hnf1, hnfo, hf20, hf64, hbf, hcf, hmt0, hmtc, hmtb, hE, hT⟩ := hK
+  obtain ⟨hnum, E, T⟩ := hK
+  simp only [wfHeurNum, wfCommon, Bool.and_eq_true, decide_eq_true_eq, and_assoc] at hnum
+  obtain ⟨hr, hnqP, hnqQ, hnf1, hnfo, hf16, hf64, hb64, hbf, hcf, hmt0, hmtc, hmtb, hsum⟩ := hnum
   have hnq := And.intro hnqP hnqQ
   simp only [sigInRangeHeur, pkInRange, inU, Bool.and_eq_true, decide_eq_true_eq, Bool.not_eq_true', and_assoc] at hs
   obtain ⟨_, _, hp0, hp1, _, _, ht0, ht1, ha0, ha1, _⟩ := hs
-  have htN : s.trl = ((s.trl.toNat : Nat) : Int) := by omega
-  have hEv := range_all hE (i := s.trl.toNat) (by omega)
-  have hTh := range_all hT (i := s.trl.toNat) (by omega)
-  rw [← htN] at hEv hTh
-  unfold bodyHeur
+  unfold maxTrlHeur at ht1 hmt0 hmtc hmtb
+  have hEv := evalEven_ok K E "challenge" ((K.heurChall : Int) + s.trl) (by omega) (by omega) hf16
+  have hTh := thetaChain_ok K T "chain" ((K.heurBound : Int) - s.trl) ((K.f : Int) - ((K.heurBound : Int) - s.trl) + 2) 2 (Or.inr rfl)
+    (by omega) (by omega) (by omega) (by omega) (by omega) (by omega)
+  unfold bodyHeur travHeur cheapHeur
   simp only [allOk_append, Bool.and_eq_true, and_assoc]
-  refine ⟨?_, ?_, ?_, ?_, ?_, ?_, hEv, ?_, ?_, ?_, ?_, hTh⟩
+  refine ⟨?_, ?_, ?_, ?_, ?_, ?_, ?_, hEv.1, ?_, ?_, ?_, ?_, hTh.1, hEv.2, hTh.2⟩
   · simp only [allOk_cons, allOk_nil, Access.ok, Bool.and_true, Bool.and_eq_true, decide_eq_true_eq]
     omega
   · apply allOk_ite
@@ -197,6 +285,8 @@ theorem bodyHeur_ok (K : Lvl) (hK : wfHeur K = true) (pk : RawPk) (s : RawSigH) 
     · intro _; rfl
   · exact fromHint_ok K _ _ _ _ hp0 hp1 hnq (by omega)
   · exact matApp_ok K _ _ (by omega) (by omega) hr (by omega)
+  · simp only [dblmul3, allOk_cons, allOk_nil, Access.ok, Bool.and_true, decide_eq_true_eq]
+    omega
   · simp only [allOk_cons, allOk_nil, Access.ok, Bool.and_true, Bool.and_eq_true, decide_eq_true_eq]
     omega
   · exact dblIter_ok K _ _ (by omega)
@@ -206,5 +296,69 @@ theorem bodyHeur_ok (K : Lvl) (hK : wfHeur K = true) (pk : RawPk) (s : RawSigH) 
   · exact dblIter_ok K _ _ (by omega)
   · simp only [allOk_cons, allOk_nil, Access.ok, Bool.and_true, Bool.and_eq_true, decide_eq_true_eq]
     omega
+
+/-! ## total work: iterations of all modelled loops -/
+
+theorem work_le_cap (a : Access) (h : a.ok = true) : a.work ≤ a.cap := by
+  cases a <;> simp [Access.work, Access.cap, Access.ok] at h ⊢
+  omega
+
+theorem totalWork_le_cap : ∀ (l : List Access), allOk l = true → totalWork l ≤ totalCap l
+  | [], _ => by simp [totalWork, totalCap]
+  | a :: l, h => by
+    rw [allOk_cons, Bool.and_eq_true] at h
+    have := totalWork_le_cap l h.2
+    have := work_le_cap a h.1
+    simp only [totalWork, totalCap, List.map_cons, List.sum_cons] at *
+    omega
+
+theorem totalCap_append (l1 l2 : List Access) : totalCap (l1 ++ l2) = totalCap l1 + totalCap l2 := by
+  simp [totalCap, List.map_append, List.sum_append]
+
+theorem totalCap_nil : totalCap [] = 0 := rfl
+theorem totalCap_cons (a : Access) (l : List Access) : totalCap (a :: l) = a.cap + totalCap l := by
+  simp [totalCap]
+
+theorem totalCap_hintAcc (K : Lvl) (lo : Bool) (thr : Nat) (w : String) (h : Int) : totalCap (hintAcc K lo thr w h) = 0 := by
+  unfold hintAcc; split <;> simp [totalCap_cons, totalCap_nil, Access.cap]
+
+theorem totalCap_fromHint (K : Lvl) (t : String) (f h0 h1 : Int) : totalCap (fromHint K t f h0 h1) = K.f := by
+  simp [fromHint, totalCap_append, totalCap_hintAcc, totalCap_cons, totalCap_nil, Access.cap]
+
+theorem totalCap_evalEven (K : Lvl) (t : String) (x : Int) : totalCap (evalEven K t x) ≤ K.f + K.f * K.f := by
+  simp only [evalEven, totalCap_append]
+  split <;> simp [totalCap_cons, totalCap_nil, Access.cap] <;> omega
+
+theorem totalCap_evalEvenTrav (K : Lvl) (t : String) (x : Int) : totalCap (evalEvenTrav K t x) = 0 := by
+  simp only [evalEvenTrav]
+  split
+  · rfl
+  · split <;> simp [totalCap_cons, totalCap_nil, Access.cap]
+
+theorem totalCap_thetaChain (K : Lvl) (t : String) (n r : Int) (adj : Nat) : totalCap (thetaChain K t n r adj) = K.f := by
+  simp only [thetaChain, totalCap_append]
+  split <;> simp [totalCap_cons, totalCap_nil, Access.cap]
+
+theorem totalCap_thetaChainTrav (K : Lvl) (t : String) (n r : Int) (adj : Nat) : totalCap (thetaChainTrav K t n r adj) = 0 := by
+  simp only [thetaChainTrav]
+  split
+  · split <;> simp [totalCap_cons, totalCap_nil, Access.cap]
+  · rfl
+
+/-- explicit bound on the iterations of all modelled loops of one verification, as a function of f:
+    linear terms (cofactor clearing, doublings, ladder, biscalar multiplications, chain steps) plus the two naive-chain terms -/
+def workCap (K : Lvl) : Nat := 10 * K.f + 4 * (K.f + 64) + 2 * (K.f * K.f)
+
+theorem totalCap_bodyDim2 (K : Lvl) (pk : RawPk) (s : RawSig) : totalCap (bodyDim2 K pk s) ≤ workCap K := by
+  have h1 := totalCap_evalEven K "challenge" ((K.f : Int) - s.bt)
+  simp only [bodyDim2, cheapDim2, travDim2, totalCap_append, totalCap_fromHint, totalCap_evalEvenTrav, totalCap_thetaChain,
+    totalCap_thetaChainTrav, workCap]
+  split <;> simp only [totalCap_cons, totalCap_nil, totalCap_append, Access.cap, ladder3pt, dblIter, matApp, dblmul3] <;> omega
+
+theorem totalCap_bodyHeur (K : Lvl) (pk : RawPk) (s : RawSigH) : totalCap (bodyHeur K pk s) ≤ workCap K := by
+  have h1 := totalCap_evalEven K "challenge" ((K.heurChall : Int) + s.trl)
+  simp only [bodyHeur, cheapHeur, travHeur, totalCap_append, totalCap_fromHint, totalCap_evalEvenTrav, totalCap_thetaChain,
+    totalCap_thetaChainTrav, workCap]
+  split <;> simp only [totalCap_cons, totalCap_nil, totalCap_append, Access.cap, dblIter, matApp, dblmul3] <;> omega
 
 end SqiModel.Verify
